@@ -25,7 +25,7 @@ def gen_cases(tier, seed):
     rng = gen.rng_for(seed, ID, tier)
     cs = itertools.count(1)
     nshapes = 10 if tier == "quick" else 80
-    for fam in ("exact", "noisy", "int32", "uint8", "float32", "tucker-sparse"):
+    for fam in ("exact", "noisy", "int32", "uint8", "float32", "tucker-sparse", "empty-tail"):
         for _ in range(nshapes if fam in ("exact", "noisy") else max(2, nshapes // 3)):
             N = int(rng.integers(2, 5))
             shape = [int(s) for s in rng.integers(2, 8 if N < 4 else 5, size=N)]
@@ -75,8 +75,16 @@ def _data(case):
         for r_ in range(R):
             core[(r_,) * len(shape)] = w[r_]
         H["ttensor"] = ttb.ttensor(ttb.tensor(core), [f.copy() for f in fm])
-    elif case["fam"] == "noisy":
+    elif case["fam"] in ("noisy", "empty-tail"):
         A = A + 0.3 * rng.standard_normal(shape)
+        if case["fam"] == "empty-tail":
+            # the last slice(s) of one or two modes hold no nonzero at all: the extent of a mode is its declared size, not the largest
+            # occupied index
+            for m_ in rng.choice(len(shape), size=min(2, len(shape)), replace=False):
+                k_ = int(rng.integers(1, max(2, shape[m_] // 2)))
+                idx = [slice(None)] * len(shape)
+                idx[int(m_)] = slice(shape[m_] - k_, None)
+                A[tuple(idx)] = 0.0
     else:
         # the same values stored in a narrower element type: the vectors must not depend on the storage type
         A = A + 0.3 * rng.standard_normal(shape)
@@ -90,7 +98,7 @@ def _data(case):
     H["tensor"] = ttb.tensor(A.copy())
     # a sparse holder of the same array: zero a few entries in both
     mask = rng.random(shape) < (0.0 if case["fam"] == "exact" else 0.3)
-    if case["fam"] == "noisy":
+    if case["fam"] in ("noisy", "empty-tail"):
         A = np.where(mask, 0.0, A)
         H["tensor"] = ttb.tensor(A.copy())
     nnz = int(np.count_nonzero(A))
